@@ -274,6 +274,10 @@ def reduce(exprs):
                         progress.finish()
                         nreduce += 1
                         runtime = time.time() - start
+                        # the output file holds the accepted input before
+                        # it is announced and the bookkeeping is done
+                        nodeio.write_smtlib_to_file(options.args().outfile,
+                                                    task.exprs)
                         logging.chat(
                             f'#{nreduce}: {task.name} ({runtime:.2f}s, '
                             f'{nodes.count_nodes(task.exprs)} expressions)')
@@ -283,8 +287,6 @@ def reduce(exprs):
                         loop_checker.add(exprs)
                         skip = task.nodeid - 1
                         fresh_run = False
-                        nodeio.write_smtlib_to_file(options.args().outfile,
-                                                    exprs)
                 if not reduction:
                     if fresh_run:
                         # this was a fresh run, continue with next pass
